@@ -446,7 +446,7 @@ fn main() {
     let owned = match prop.as_str() {
         "C02" => bridge::ORDER | bridge::CONSERVE,
         "C03" => bridge::WRITE,
-        "C08" => bridge::WRITE | bridge::COWSEM,
+        "C08" => bridge::WRITE | bridge::COWSEM | bridge::CONSERVE,
         "C09" => bridge::CONSERVE | bridge::WRITE,
         "C04" => bridge::CONSERVE | bridge::ORDER,
         _ => u32::MAX,
